@@ -27,7 +27,7 @@ CHECKS = {
         "design_ref": "DESIGN.md section 8 / C03",
     },
     "C07": {
-        "technique": "Lean 4 proof (result of parse independent of any re-ordering of the match set; engine is a pure function) + same requests in subprocesses with different PYTHONHASHSEED and histories compared with each other and with the model",
+        "technique": "Lean 4 proof (result of parse independent of any re-ordering of the match set AND of the cache state any history leaves behind: C07.parse_deterministic, two_processes_agree; engine is a pure function) + same requests in subprocesses with different PYTHONHASHSEED and histories compared with each other and with the model",
         "text": "Partial by nature: the theorem shows the modelled algorithm has no order dependence; hash randomisation itself is a runtime mechanism, so the tie is k fresh subprocesses with different hash seeds and warm-up histories whose canonical dumps must equal each other and the model's.",
         "design_ref": "DESIGN.md section 8 / C07",
     },
@@ -87,8 +87,8 @@ CHECKS = {
         "design_ref": "DESIGN.md section 8 / C06",
     },
     "C08": {
-        "technique": "Lean 4 proof (cached engine lparseC refines the cache-free engine for every cache state whose entries are correct, any limit, any eviction; with the termination theorem: unconditional for every well-formed grammar and the explicit fuel) + scripted-history differential (warm vs cold unlimited twin vs cache-free model)",
-        "text": "Cache transparency theorem over the model with an abstract cache (any implementation of lookup/store that only returns stored values); tie: random request histories with clears and limit changes on live caches vs a cold unlimited twin and the cache-free model.",
+        "technique": "Lean 4 proof (cached engine lparseC refines the cache-free engine for every cache state whose entries are correct, any limit, any eviction; with the termination theorem: unconditional for every well-formed grammar and the explicit fuel; histories may contain requests abandoned half-way: cache_transparent_with_aborts) + scripted-history differential (requests, clears, live limit changes, attempts cut short by a foreign exception at the n-th library call, long inputs; warm vs cold unlimited twin vs cache-free model)",
+        "text": "Cache transparency theorem over the model with an abstract cache (any implementation of lookup/store that only returns stored values); tie: random request histories with clears, limit changes on live caches and abandoned attempts vs a cold unlimited twin and the cache-free model.",
         "design_ref": "DESIGN.md section 8 / C08",
     },
     "C09": {
